@@ -23,14 +23,14 @@ Parsed(cs) ==
                                       IN [ok |-> m.ok, ms |-> IF m.ok THEN <<m>> ELSE <<>>]
 
 \* for "enc": the round-trip theorem instantiated on this case
-RoundTrip(cs) ==
+RoundTrip(cs, p) ==
   cs.mode = "enc" =>
-    LET p == Parsed(cs) IN
     p.ok /\ Len(p.ms) = Len(cs.parts) /\ \A n \in 1..Len(cs.parts) : p.ms[n].val = cs.parts[n].s
 
-Answer(cs) == [id |-> cs.id, text |-> TextOf(cs), ok |-> Parsed(cs).ok,
-               ms |-> [n \in 1..Len(Parsed(cs).ms) |-> Res(Parsed(cs).ms[n])],
-               thm |-> RoundTrip(cs)]
+Answer(cs) == LET p == Parsed(cs) IN
+              [id |-> cs.id, text |-> TextOf(cs), ok |-> p.ok,
+               ms |-> [n \in 1..Len(p.ms) |-> Res(p.ms[n])],
+               thm |-> RoundTrip(cs, p)]
 
 VARIABLE i
 Init == i = 0
